@@ -104,9 +104,9 @@ pub fn plan_for(prop: &str, tier: &str) -> Plan {
         }
         "C08" => {
             p.scenarios = if q {
-                sc(&[("read", 1), ("read-single", 0), ("read-single", 1), ("read-rm1", 1), ("read-rm1", 2), ("read-div", 2), ("read-five", 0), ("read-joint1", 0), ("read-joint1", 1), ("read-five", 1), ("read-cc", 0), ("read-lagf", 2), ("read", 2)])
+                sc(&[("read", 1), ("read-single", 0), ("read-single", 1), ("read-swap", 0), ("read-swap", 1), ("read-regain", 1), ("read-rm1", 1), ("read-rm1", 2), ("read-div", 2), ("read-five", 0), ("read-joint1", 0), ("read-joint1", 1), ("read-five", 1), ("read-cc", 0), ("read-lagf", 2), ("read", 2)])
             } else {
-                sc(&[("read", 1), ("read-single", 0), ("read-single", 1), ("read-rm1", 1), ("read-rm1", 2), ("read-div", 2), ("read-five", 0), ("read-joint1", 0), ("read-joint1", 1), ("read-five", 1), ("read-cc", 0), ("read-lagf", 2), ("read", 2), ("read-nofwd", 2), ("member-rm1-2v", 1), ("read-single", 2), ("read", 3), ("read-cc", 1), ("read", 4), ("read", 5)])
+                sc(&[("read", 1), ("read-single", 0), ("read-single", 1), ("read-swap", 0), ("read-swap", 1), ("read-regain", 1), ("read-rm1", 1), ("read-rm1", 2), ("read-div", 2), ("read-five", 0), ("read-joint1", 0), ("read-joint1", 1), ("read-five", 1), ("read-cc", 0), ("read-lagf", 2), ("read", 2), ("read-nofwd", 2), ("member-rm1-2v", 1), ("read-single", 2), ("read", 3), ("read-cc", 1), ("read", 4), ("read", 5)])
             };
             p.required_stats = vec![Stat::ReadStates];
             p.explanation = "explicit-state exploration; ghost max commit index over all nodes recorded when a read is issued; every ReadState in any Ready must be returned at the issuer with index >= that value".into();
@@ -122,9 +122,9 @@ pub fn plan_for(prop: &str, tier: &str) -> Plan {
         }
         "C10" => {
             p.scenarios = if q {
-                sc(&[("fig8-div-live", 1), ("snap-live", 0), ("snap-cq2-live", 0), ("elect-pvcq-dead1-slow3-live", 0), ("xfer-abort-lost-pvcq-live", 0), ("member-promo-live", 0), ("repl-skip-dropped-live", 0), ("repl-dropped-live", 0), ("xfer-live", 0), ("stale-pvcq-live", 0), ("flow-elect-live", 0), ("member-live", 0)])
+                sc(&[("fig8-div-live", 1), ("snap-live", 0), ("read-swap-crash-live", 0), ("snap-cq2-live", 0), ("elect-pvcq-dead1-slow3-live", 0), ("xfer-abort-lost-pvcq-live", 0), ("member-promo-live", 0), ("repl-skip-dropped-live", 0), ("repl-dropped-live", 0), ("xfer-live", 0), ("stale-pvcq-live", 0), ("flow-elect-live", 0), ("member-live", 0)])
             } else {
-                sc(&[("fig8-div-live", 1), ("snap-live", 0), ("snap-cq2-live", 0), ("elect-pvcq-dead1-slow3-live", 0), ("xfer-abort-lost-pvcq-live", 0), ("member-promo-live", 0), ("repl-skip-dropped-live", 0), ("repl-dropped-live", 0), ("xfer-live", 0), ("stale-pvcq-live", 0), ("flow-elect-live", 0), ("member-live", 0), ("flow-live", 0), ("snap-live", 1), ("snap-cq2-live", 1), ("member-live", 1), ("xfer-abort-pvcq-live", 0), ("fig8-div-live", 2), ("flow-live", 1), ("xfer-live", 1), ("fig8-live", 1)])
+                sc(&[("fig8-div-live", 1), ("snap-live", 0), ("read-swap-crash-live", 0), ("snap-cq2-live", 0), ("elect-pvcq-dead1-slow3-live", 0), ("xfer-abort-lost-pvcq-live", 0), ("member-promo-live", 0), ("repl-skip-dropped-live", 0), ("repl-dropped-live", 0), ("xfer-live", 0), ("stale-pvcq-live", 0), ("flow-elect-live", 0), ("member-live", 0), ("flow-live", 0), ("snap-live", 1), ("snap-cq2-live", 1), ("member-live", 1), ("xfer-abort-pvcq-live", 0), ("read-swap-crash-live", 1), ("fig8-div-live", 2), ("flow-live", 1), ("xfer-live", 1), ("fig8-live", 1)])
             };
             p.required_stats = vec![Stat::LiveSuffixRuns];
             p.explanation = "bounded convergence from every reachable state: for every distinct state of the prefix spaces a deterministic fault-free suffix (restart, complete persistence, report snapshots, (n+3)*max_timeout rounds of tick+deliver-to-quiescence, fresh proposal, same again) must end with one leader, converged logs and the fresh entry applied on every running member; a state counts as a violation only if it fails under all three election-timeout schedulers; when a MsgSnapshot takes part in the recovery the suffix is run a second time with snapshots on a slow side channel (2*max_timeout+2 rounds per snapshot, heartbeats and appends flowing, status reported on arrival)".into();
@@ -170,17 +170,18 @@ pub fn plan_for(prop: &str, tier: &str) -> Plan {
         }
         "C20" => {
             p.scenarios = if q {
-                sc(&[("elect", 1), ("fig8-div", 1), ("crash2", 1), ("over", 0), ("crash2-split", 2), ("member-jd", 0), ("member-fresh", 1), ("elect-pvcq-dead1-minx", 0), ("elect-cq-dead1-minx", 0), ("elect-api", 1), ("snap-api", 0), ("xfer-api", 0), ("member-joint-api", 1), ("read-rm1-api", 2), ("crash2-split-api", 2), ("crash2-async", 1), ("member-joint", 1), ("lease", 1), ("snap", 0), ("snap-lazy", 0), ("snap-lag", 0), ("repl-compact-memq", 0), ("repl-compact", 0), ("xfer-lag-cc", 0), ("xfer", 0), ("repl-i1-sz", 1), ("repl-mix", 0), ("read", 1), ("flow", 0), ("flow-cap", 0), ("stale", 0), ("member-rm1", 0), ("member-rm1-2v", 0), ("xfer-abort", 0), ("member", 0), ("xfer-pipe", 0), ("crash2-async-loose", 1), ("stale-async", 0), ("stale-lazy", 0), ("snap-req", 0)])
+                sc(&[("elect", 1), ("fig8-div", 1), ("crash2", 1), ("over", 0), ("crash2-split", 2), ("member-jd", 0), ("member-fresh", 1), ("elect-pvcq-dead1-minx", 0), ("elect-cq-dead1-minx", 0), ("read-regain", 0), ("read-regain", 1), ("elect-api", 1), ("snap-api", 0), ("xfer-api", 0), ("member-joint-api", 1), ("read-rm1-api", 2), ("crash2-split-api", 2), ("crash2-async", 1), ("member-joint", 1), ("lease", 1), ("snap", 0), ("snap-lazy", 0), ("snap-lag", 0), ("repl-compact-memq", 0), ("repl-compact", 0), ("xfer-lag-cc", 0), ("xfer", 0), ("repl-i1-sz", 1), ("repl-mix", 0), ("read", 1), ("flow", 0), ("flow-cap", 0), ("stale", 0), ("member-rm1", 0), ("member-rm1-2v", 0), ("xfer-abort", 0), ("member", 0), ("xfer-pipe", 0), ("crash2-async-loose", 1), ("stale-async", 0), ("stale-lazy", 0), ("snap-req", 0)])
             } else {
-                sc(&[("elect", 1), ("fig8-div", 1), ("crash2", 1), ("over", 0), ("crash2-split", 2), ("member-jd", 0), ("member-fresh", 1), ("elect-pvcq-dead1-minx", 0), ("elect-cq-dead1-minx", 0), ("elect-api", 1), ("snap-api", 0), ("xfer-api", 0), ("member-joint-api", 1), ("read-rm1-api", 2), ("crash2-split-api", 2), ("crash2-async", 1), ("member-joint", 1), ("lease", 1), ("snap", 0), ("snap-lazy", 0), ("snap-lag", 0), ("repl-compact-memq", 0), ("repl-compact", 0), ("xfer-lag-cc", 0), ("xfer", 0), ("repl-i1-sz", 1), ("repl-mix", 0), ("read", 1), ("flow", 0), ("flow-cap", 0), ("stale", 0), ("member-rm1", 0), ("member-rm1-2v", 0), ("xfer-abort", 0), ("member", 0), ("xfer-pipe", 0), ("crash2-async-loose", 1), ("stale-async", 0), ("stale-lazy", 0), ("snap-req", 0), ("member-rm1-lazy", 1), ("member-rm1-async", 1), ("read-lease", 1), ("read-nofwd", 1), ("repl-fetch", 1), ("repl-gc", 1), ("elect-prio", 1), ("member-mix", 1), ("crash3", 1), ("repl-batch", 1), ("snap", 1), ("stale-lazy", 1), ("stale-async", 1), ("member", 1), ("crash3-lazy", 1), ("crash2-async-loose", 2), ("crash3-async", 1), ("over", 1), ("over-two", 0), ("over-loose", 0), ("fig8", 1), ("xfer", 1), ("flow", 1), ("member-jd", 1), ("elect-pv", 2), ("snap-lazy-unp", 1), ("member-rm1-api", 0), ("stale-api", 0), ("member-rm1-2v-api", 0), ("snap-req-api", 0), ("repl-compact-memq", 1), ("repl-compact", 1), ("snap-memq", 2), ("snap-fig8-memq", 1)])
+                sc(&[("elect", 1), ("fig8-div", 1), ("crash2", 1), ("over", 0), ("crash2-split", 2), ("member-jd", 0), ("member-fresh", 1), ("elect-pvcq-dead1-minx", 0), ("elect-cq-dead1-minx", 0), ("read-regain", 0), ("read-regain", 1), ("elect-api", 1), ("snap-api", 0), ("xfer-api", 0), ("member-joint-api", 1), ("read-rm1-api", 2), ("crash2-split-api", 2), ("crash2-async", 1), ("member-joint", 1), ("lease", 1), ("snap", 0), ("snap-lazy", 0), ("snap-lag", 0), ("repl-compact-memq", 0), ("repl-compact", 0), ("xfer-lag-cc", 0), ("xfer", 0), ("repl-i1-sz", 1), ("repl-mix", 0), ("read", 1), ("flow", 0), ("flow-cap", 0), ("stale", 0), ("member-rm1", 0), ("member-rm1-2v", 0), ("xfer-abort", 0), ("member", 0), ("xfer-pipe", 0), ("crash2-async-loose", 1), ("stale-async", 0), ("stale-lazy", 0), ("snap-req", 0), ("member-rm1-lazy", 1), ("member-rm1-async", 1), ("read-lease", 1), ("read-nofwd", 1), ("repl-fetch", 1), ("repl-gc", 1), ("elect-prio", 1), ("member-mix", 1), ("crash3", 1), ("repl-batch", 1), ("snap", 1), ("stale-lazy", 1), ("stale-async", 1), ("member", 1), ("crash3-lazy", 1), ("crash2-async-loose", 2), ("crash3-async", 1), ("over", 1), ("over-two", 0), ("over-loose", 0), ("fig8", 1), ("xfer", 1), ("flow", 1), ("member-jd", 1), ("elect-pv", 2), ("snap-lazy-unp", 1), ("member-rm1-api", 0), ("stale-api", 0), ("member-rm1-2v-api", 0), ("snap-req-api", 0), ("repl-compact-memq", 1), ("repl-compact", 1), ("snap-memq", 2), ("snap-fig8-memq", 1)])
             };
             p.required_stats = vec![Stat::BadMsgOffered, Stat::ReadyChecked, Stat::MsgsReleased, Stat::ApiProbes];
             p.explanation = "every API call of every explored execution runs under catch_unwind: a panic, failed assert!/debug_assert!, fatal!, index out of bounds or arithmetic overflow (debug-assertions and overflow-checks are on) is a violation; in every state local-only message types and responses from non-members are offered to step() on a clone and must be rejected with the documented error without changing the state digest; in the -api scenarios every public RawNode entry point (read_index, request_snapshot, ping, campaign on promotable nodes, transfer_leader / report_unreachable / report_snapshot with member, own and unknown ids, propose, propose_conf_change) is offered to a clone of every node in every state and must not panic".into();
         }
         "C11" => {
             p.components = vec!["quorum"];
-            p.scenarios = if q { sc(&[("snap-gc", 0), ("snap-gc", 1), ("repl-gc", 1), ("fig8-div-gc", 1)]) } else { sc(&[("snap-gc", 0), ("snap-gc", 1), ("repl-gc", 1), ("fig8-div-gc", 1), ("fig8-div-gc", 2), ("snap-gc", 2), ("repl-gc", 2)]) };
-            p.explanation = "complete enumeration of voter sets, acked-index vectors, vote maps and group assignments against the definitional quorum arithmetic; plus cluster scenarios with group commit on (snapshot install, replication, Figure-8 hand-over) in which the tracker must keep the setting and every commit is checked against the durable quorum rule".into();
+            p.scenarios = if q { sc(&[("snap-gc", 0), ("member-gc", 0), ("snap-gc", 1), ("repl-gc", 1), ("fig8-div-gc", 1)]) } else { sc(&[("snap-gc", 0), ("member-gc", 0), ("snap-gc", 1), ("repl-gc", 1), ("fig8-div-gc", 1), ("fig8-div-gc", 2), ("snap-gc", 2), ("repl-gc", 2), ("member-gc", 1), ("member-joint-gc", 0)]) };
+            p.required_stats = vec![Stat::GroupCommitChecked];
+            p.explanation = "complete enumeration of voter sets, acked-index vectors, vote maps and group assignments against the definitional quorum arithmetic; plus cluster scenarios with group commit on (snapshot install, replication, Figure-8 hand-over) in which the tracker must keep the setting, assign_commit_groups (unknown ids listed first) must reach every tracked member, every commit is checked against the durable quorum rule and, when every voter has a group, against durability in at least two groups".into();
             p.assumptions = vec!["value bounds listed in the run statistics (config sizes 0-9, indexes 0-3, groups 0-2)".into()];
         }
         "C19" => {
